@@ -45,6 +45,13 @@ Definition nonneg_i64 (n : Z) : bool := (0 <=? n) && (n <=? i64_max).
 (** finite and sign bit clear (this excludes [-0.0]) *)
 Definition finite_pos (w b : Z) : bool := (0 <=? b) && (b <? f_inf w).
 
+(** the canonical NaN ([f64::NAN] / [f32::NAN]) and the two infinities: what the quoted spellings
+    of the dump are read back as (a NaN with another payload or sign comes back as this one) *)
+Definition special64 (b : Z) : bool :=
+  (b =? 9221120237041090560) || (b =? 9218868437227405312) || (b =? 18442240474082181120).
+Definition special32 (b : Z) : bool :=
+  (b =? 2143289344) || (b =? 2139095040) || (b =? 4286578688).
+
 Definition valid_date_b (y m d : Z) : bool :=
   (-2147483648 <=? y) && (y <=? 2147483647) && (1 <=? m) && (m <=? 12) && (1 <=? d) && (d <=? 31).
 Definition valid_time_b (h mi s ns : Z) : bool :=
@@ -64,15 +71,14 @@ Definition value_ok (t : dtype) (nullable : bool) (v : sqlvalue) : bool :=
       match t, v with
       | TInteger, VInteger n => nonneg_i64 n
       | TBigint, VBigint n => nonneg_i64 n
-      | TDouble, VDouble b => finite_pos 64 b
-      | TReal, VReal b => finite_pos 32 b
-      | TFloat _, VFloat b => finite_pos 32 b
-      | TNumeric _ _, VNumeric b => finite_pos 64 b && is_none (parse_i64 (show_f64 fl b))
+      | TSmallint, VSmallint n => (0 <=? n) && (n <=? 32767)
+      | TDouble, VDouble b => finite_pos 64 b || special64 b
+      | TReal, VReal b => finite_pos 32 b || special32 b
+      | TFloat _, VFloat b => finite_pos 32 b || special32 b
+      | TNumeric _ _, VNumeric b => finite_pos 64 b
       | TVarchar None, VVarchar s => str_ok s
       | TVarchar (Some n), VVarchar s => str_ok s && (blen s <=? n)
-      | TChar n, VCharacter s =>
-          (* exactly n characters; whatever does not fit in the first n BYTES is blank *)
-          str_ok s && (Z.of_nat (length s) =? n) && forallb (Z.eqb 32) (skipn (floor_chars n s) s)
+      | TChar n, VCharacter s => str_ok s && (Z.of_nat (length s) =? n)
       | TBoolean, VBoolean _ => true
       | TDate, VDate y m d => valid_date_b y m d
       | TTime _, VTime h mi s ns => valid_time_b h mi s ns
